@@ -187,6 +187,10 @@ def run(ctx):
             ver = '5' if cs.nfn.endswith('5') else '311'
             ctx.ob(prims.guarded_any(dp, cs.bb, [r'^protocol_version is Mqtt%s$' % ver]), 'decode_packet uses the MQTT %s table only for that version' % ver, 'decver|' + ver, loc=cs.loc())
 
+    # ------------------------------------------------------------ R-C03-7
+    ctx.rule('R-C03-7', 'T9 def-use chain + T4', 'wire layout: in every server-to-client packet decoder the fields are taken off the body cursor in the order the specification lays them out (reaching-definition chain over the cursor), each into the field of that meaning; optional middle fields are bypassed, the property section is exactly the announced length, the payload / reason-code list is the rest')
+    run_layout(ctx, F)
+
     # ------------------------------------------------------------ R-C03-4
     ctx.rule('R-C03-4', 'T2 + T1', 'the body state is entered only under total_packet_size <= maximum; body bytes are buffered only in the body-state function; cross-call decoder state is written only by the three state functions and reset')
     DEC = 'decode::Decoder'
@@ -223,6 +227,33 @@ def run(ctx):
         for nm, st in (('process_read_packet_body', 'ReadPacketBody'), ('process_read_total_remaining_length', 'ReadTotalRemainingLength'), ('process_read_packet_type', 'ReadPacketType')):
             if cs.nfn.endswith(nm):
                 prims.requires(ctx, db, cs.bb, [r'^self\.state is %s$' % st], 'state-dispatch|' + nm, 'calling ' + nm, loc=cs.loc())
+
+    # ------------------------------------------------------------ R-C03-8 (added after seed C03-2)
+    ctx.rule('R-C03-8', 'T9 value flow', 'the maximum packet size in force for inbound traffic is the one this client announced in its CONNECT (specification maximum when it announced none): that value, and nothing derived from CONNACK or connection state, flows into the decoder\'s size comparison on every call')
+    gm = ctx.fn('ProtocolState::get_maximum_incoming_packet_size')
+    rvs = [(show(e), guard_strs(gm, b)) for b, e in prims.ret_variants(gm)]
+    ok = len(rvs) == 2 and any(x == 'self.config.connect_options.maximum_packet_size_bytes@Some.0' and 'self.config.connect_options.maximum_packet_size_bytes is Some' in g for x, g in rvs) \
+        and any(x == 'MAXIMUM_VARIABLE_LENGTH_INTEGER as u32' and 'self.config.connect_options.maximum_packet_size_bytes is None' in g for x, g in rvs)
+    ctx.ob(ok, 'the inbound limit is the CONNECT option when set and the specification maximum otherwise, on every path (%s)' % [x for x, g in rvs], 'limit|source', loc=gm.loc())
+    flds = prims.self_fields_read(F, gm, 1)
+    ctx.ob(flds == {'config'}, 'the inbound limit depends on the configuration only, not on connection state (fields read: %s)' % sorted(flds), 'limit|state-free', loc=gm.loc())
+    dflt = [fold(e) for b, e in prims.ret_variants(gm) if show(e) == 'MAXIMUM_VARIABLE_LENGTH_INTEGER as u32']
+    ctx.ob(dflt == [268435455], 'the default limit evaluates to 268435455, the largest remaining length the specification can express (1.5.5) (%s)' % dflt, 'limit|const', loc=gm.loc())
+    hid = ctx.fn('ProtocolState::handle_network_event_incoming_data')
+    dctx = [e for (i, j, s_) in hid.stmts() if s_['k'] == 'assign' for e in [hid.rvalue_expr(s_['rv'], i)] if e[0] == 'agg' and e[1].endswith('DecodingContext')]
+    dctx = list({show(e): e for e in dctx}.values())
+    ctx.ob(len(dctx) == 1 and show(dict(dctx[0][3]).get('maximum_packet_size')) == 'ProtocolState::get_maximum_incoming_packet_size(self)' and show(dict(dctx[0][3]).get('protocol_version')) == 'self.protocol_version',
+           'every decode call receives that limit and the engine\'s protocol version', 'limit|context', loc=hid.loc())
+    dbs = hid.calls('Decoder::decode_bytes')
+    ctx.ob(len(dbs) == 1 and show(dbs[0].arg(1)) == 'data' and show(dbs[0].arg(2)) == 'decode_context', 'the received bytes and that context are what the decoder is given', 'limit|decode-call', loc=hid.loc())
+    plr = ctx.fn('Decoder::process_read_total_remaining_length')
+    from ..mir import var_inits as _vi
+    mi = [(show(e), guard_strs(plr, b)) for b, e in _vi(plr, 'maximum_size')]
+    ok = len(mi) == 2 and any(x == 'context.maximum_packet_size' for x, g in mi) and any(x == 'MAXIMUM_VARIABLE_LENGTH_INTEGER as u32' and any(re.match(r'^\(maximum_size == 0\)$', y) for y in g) for x, g in mi)
+    ctx.ob(ok, 'the comparison uses the context\'s limit (0 meaning the specification maximum)', 'limit|compare-source', loc=plr.loc())
+    ti = [show(e) for b, e in _vi(plr, 'total_packet_size')]
+    ctx.ob(len(ti) == 1 and re.match(r'^\(\(\(\(\(decode::decode_vli\(Deref::deref\(self\.scratch\)\)\)@Ok\.0@Value\.0 AddWithOverflow 1\)\)\.0 AddWithOverflow Vec::len\(self\.scratch\) as u32\)\)\.0$', ti[0]) is not None,
+           'the size compared is the whole packet: remaining length + first byte + length-field bytes', 'limit|total', loc=plr.loc())
 
     # ------------------------------------------------------------ R-C03-6
     ctx.rule('R-C03-6', 'T9 value flow', 'stream consumption arithmetic: each state function consumes exactly what it buffers/decodes and hands the untouched remainder back, so the decoded packets depend only on the concatenated stream (necessary for chunking invariance)')
@@ -285,3 +316,93 @@ def run(ctx):
                    'panic|' + s.key(), loc=s.loc(), detail=None if r else 'guards: ' + ' ; '.join(prims.guard_strs(v, s.bb)))
     ctx.floor(tot, 80, 'panic-capable sites on the decode path')
     ctx.floor(len(R), 70, 'bodies reachable from Decoder::decode_bytes')
+
+
+
+# ---------------------------------------------------------------------------------------------
+# R-C03-7: decoder wire layout (specification sections 3.2, 3.3, 3.4-3.7, 3.9, 3.11, 3.14, 3.15)
+def _tree(*items):
+    """Expected wire graph from a compact tree: items are (label, parent_labels...)."""
+    return {lab: frozenset(par) for lab, *par in items}
+
+
+RC = 'decode_u8_as_enum -> packet.reason_code'
+PID = 'decode_u16 -> packet.packet_id'
+PLEN = 'decode_vli_into_mutable -> properties_length'
+TOPIC = 'decode_length_prefixed_string -> packet.topic'
+
+
+def _ack5(var):
+    return _tree((PID, 'START'), (RC, PID), (PLEN, RC), ('decode_%s_properties -> packet' % var.lower(), PLEN))
+
+
+def _sub5(var):
+    return _tree((PID, 'START'), (PLEN, PID), ('to:properties_length', PLEN), ('from:properties_length', PLEN),
+                 ('decode_%s_properties -> packet' % var.lower(), 'to:properties_length'), ('iter', 'from:properties_length'))
+
+
+LAYOUTS = {
+    ('Connack', '5'): _tree(('byte[0] -> flags', 'START'), ('from:1', 'START'), (RC, 'from:1'), (PLEN, RC), ('decode_connack_properties -> packet', PLEN)),
+    ('Connack', '311'): _tree(('byte[0] -> flags', 'START'), ('from:1', 'START'), (RC, 'from:1')),
+    ('Publish', '5'): _tree((TOPIC, 'START'), (PID, TOPIC), (PLEN, TOPIC, PID), ('to:properties_length', PLEN), ('from:properties_length', PLEN),
+                            ('decode_publish_properties -> packet', 'to:properties_length'), ('to_vec', 'from:properties_length')),
+    ('Publish', '311'): _tree((TOPIC, 'START'), (PID, TOPIC), ('to_vec', TOPIC, PID)),
+    ('Puback', '5'): _ack5('Puback'), ('Pubrec', '5'): _ack5('Pubrec'), ('Pubrel', '5'): _ack5('Pubrel'), ('Pubcomp', '5'): _ack5('Pubcomp'),
+    ('Puback', '311'): _tree((PID, 'START')), ('Pubrec', '311'): _tree((PID, 'START')), ('Pubrel', '311'): _tree((PID, 'START')), ('Pubcomp', '311'): _tree((PID, 'START')),
+    ('Suback', '5'): _sub5('Suback'), ('Unsuback', '5'): _sub5('Unsuback'),
+    ('Suback', '311'): _tree((PID, 'START'), ('iter', PID)),
+    ('Unsuback', '311'): _tree((PID, 'START')),
+    ('Disconnect', '5'): _tree((RC, 'START'), (PLEN, RC), ('decode_disconnect_properties -> packet', PLEN)),
+    ('Auth', '5'): _tree((RC, 'START'), (PLEN, RC), ('decode_auth_properties -> packet', PLEN)),
+    ('Pingresp', '5'): {}, ('Pingresp', '311'): {}, ('Disconnect', '311'): {},
+}
+
+
+def run_layout(ctx, F):
+    from .. import cursor
+    n = 0
+    for (var, ver), want in sorted(LAYOUTS.items()):
+        name = '%s::decode_%s_packet%s' % (var.lower(), var.lower(), '' if var == 'Pingresp' else ver)
+        v = ctx.try_fn(name)
+        if v is None:
+            continue
+        steps, cur = cursor.chain(v)
+        got = {}
+        for lab, preds in cursor.wire_graph(steps):
+            lab = re.sub(r' -> \(AsMut::as_mut\(box_packet\)\)@\w+\.0$', ' -> packet', lab)
+            got[lab] = frozenset(preds)
+        n += 1
+        for lab in sorted(set(want) | set(got)):
+            w, g = want.get(lab), got.get(lab)
+            if w is None:
+                ctx.ob(False, '%s (MQTT %s): unexpected wire step `%s` after %s (not part of the specification layout)' % (var, ver, lab, sorted(g)), 'layout|%s|%s|extra|%s' % (var, ver, lab), loc=v.loc())
+            elif g is None:
+                ctx.ob(False, '%s (MQTT %s): wire step `%s` is missing from the cursor chain' % (var, ver, lab), 'layout|%s|%s|missing|%s' % (var, ver, lab), loc=v.loc())
+            else:
+                ctx.ob(w == g, '%s (MQTT %s): `%s` reads the cursor left by %s%s' % (var, ver, lab, sorted(w), '' if w == g else ' — found %s' % sorted(g)),
+                       'layout|%s|%s|%s' % (var, ver, lab), loc=v.loc())
+        # field-level semantics around the chain
+        fw = [(i, show(pe), show(rve)) for (i, s_, pe, rve) in v.field_writes()]
+        if var == 'Publish':
+            calls_pid = [c for c in v.calls('decode::decode_u16') if show(c.arg(1)).endswith('.packet_id')]
+            ctx.ob(len(calls_pid) == 1 and guarded_any(v, calls_pid[0].bb, [r'^!\(.*\.qos == QualityOfService::AtMostOnce\{\}\)$']) and
+                   not guarded_any(v, calls_pid[0].bb, [r'ExactlyOnce']), 'PUBLISH (MQTT %s): the packet identifier is read exactly when QoS > 0' % ver, 'layout|Publish|%s|pid-guard' % ver, loc=v.loc())
+            dup = [(i, p_, r_) for i, p_, r_ in fw if p_.endswith('.duplicate') and r_ == 'True']
+            ret = [(i, p_, r_) for i, p_, r_ in fw if p_.endswith('.retain') and r_ == 'True']
+            qos = [(i, p_, r_) for i, p_, r_ in fw if p_.endswith('.qos')]
+            ctx.ob(len(dup) == 1 and guarded_any(v, dup[0][0], [r'^!\(\(first_byte BitAnd PUBLISH_PACKET_FIXED_HEADER_DUPLICATE_FLAG\) == 0\)$']), 'PUBLISH (MQTT %s): DUP is bit 3 of the first byte' % ver, 'layout|Publish|%s|dup' % ver, loc=v.loc())
+            ctx.ob(len(ret) == 1 and guarded_any(v, ret[0][0], [r'^!\(\(first_byte BitAnd PUBLISH_PACKET_FIXED_HEADER_RETAIN_FLAG\) == 0\)$']), 'PUBLISH (MQTT %s): RETAIN is bit 0 of the first byte' % ver, 'layout|Publish|%s|retain' % ver, loc=v.loc())
+            ctx.ob(len(qos) == 1 and 'TryFrom::try_from(((first_byte Shr 1) BitAnd QOS_MASK))' in qos[0][2], 'PUBLISH (MQTT %s): QoS is bits 2-1 of the first byte, converted fallibly' % ver, 'layout|Publish|%s|qos' % ver, loc=v.loc())
+            pay = [(i, p_, r_) for i, p_, r_ in fw if p_.endswith('.payload')]
+            ctx.ob(len(pay) == 1 and re.match(r'^Option::Some\{0: slice::to_vec\(', pay[0][2]) is not None, 'PUBLISH (MQTT %s): the payload is the copied remainder' % ver, 'layout|Publish|%s|payload' % ver, loc=v.loc())
+        if var == 'Connack':
+            sp = [(i, p_, r_) for i, p_, r_ in fw if p_.endswith('.session_present')]
+            ctx.ob(len(sp) == 1 and sp[0][2] == 'True' and guarded_any(v, sp[0][0], [r'^\(\w+\[_?\d+\] == 1\)$']), 'CONNACK (MQTT %s): session present is bit 0 of the acknowledge-flags byte' % ver, 'layout|Connack|%s|session-present' % ver, loc=v.loc())
+            ra = prims.rets_after(v, [r'^!\(\w+\[_?\d+\] == 1\)$', r'^!\(\w+\[_?\d+\] == 0\)$'])
+            ctx.ob(ra == {'Err'}, 'CONNACK (MQTT %s): any other value of the flags byte (reserved bits) is a decoding error (%s)' % (ver, sorted(ra or [])), 'layout|Connack|%s|reserved' % ver, loc=v.loc())
+        if var in ('Suback', 'Unsuback') and ('iter' in want):
+            conv = r'(?:\w+::)*convert_311_encoding_to_suback_reason_code' if ver == '311' else r'TryFrom::try_from'
+            pu = [c for c in v.calls('Vec::push') if show(c.arg(0)).endswith('.reason_codes')]
+            ctx.ob(len(pu) == 1 and re.search(r'^\(Try::branch\(%s\(\(Iterator::next\(iter\)\)@Some\.0\)\)\)@Continue\.0$' % conv, show(pu[0].arg(1))) is not None,
+                   '%s (MQTT %s): every remaining byte becomes one reason code, in order, via the fallible conversion' % (var.upper(), ver), 'layout|%s|%s|reason-codes' % (var, ver), loc=v.loc())
+    ctx.floor(n, 21, 'decoders with a checked wire layout')
